@@ -51,6 +51,7 @@ fn setting_bits(s: u8) -> u8 {
 pub struct Local {
     mismatched: u64,
     scale_docs: u64,
+    stream_looks: u64,
     errpos_at_tag: u64,
     errpos_other: u64,
     unmatched: u64,
@@ -96,6 +97,13 @@ pub fn lockstep(input: &[u8], cfg: &CfgHist, loc: &mut Local) -> Result<(), Stri
         let depth_before = m.depth();
         let res = r.read_event();
         let real = result_obs(&res);
+        drop(res);
+        // a look at the raw stream between two events (also between the Start and the End of an expanded
+        // empty element) reads nothing and must not disturb the open-element stack
+        if cfg.raw.iter().any(|(i, _)| *i == call) {
+            let _ = r.stream();
+            loc.stream_looks += 1;
+        }
         if real.is_empty_text() {
             continue;
         }
@@ -288,7 +296,9 @@ fn run(ctx: &mut Ctx) {
             cur ^= *r.pick(&SWITCHES);
             flips.push((at, cur));
         }
-        if !run_case(ctx, &mut loc, &doc, &CfgHist { base, flips, raw: vec![] }) {
+        // now and then the history also looks at stream() after some of its calls
+        let raw: Vec<(u32, u8)> = if r.chance(1, 4) { (0..12u32).filter(|_| r.bool()).map(|i| (i, 0u8)).collect() } else { vec![] };
+        if !run_case(ctx, &mut loc, &doc, &CfgHist { base, flips, raw }) {
             break;
         }
     }
@@ -320,6 +330,7 @@ fn run(ctx: &mut Ctx) {
         }
     }
     ctx.add("scale_documents", loc.scale_docs);
+    ctx.add("looks_at_stream_between_events", loc.stream_looks);
     ctx.add("errors.Mismatched", loc.mismatched);
     ctx.add("observation.error_position_at_end_tag", loc.errpos_at_tag);
     ctx.add("observation.error_position_elsewhere", loc.errpos_other);
